@@ -588,7 +588,7 @@ def h_threads(ctx):
 
 
 PARTS = [
-    Part("faults", h_faults, bound={"quick": 1, "thorough": 2}, split_depth=4, budget={"quick": 200, "thorough": 3000}),
+    Part("faults", h_faults, bound={"quick": 1, "thorough": 2}, split_depth=4, budget={"quick": 2000, "thorough": 3000}),
     Part("recipient-sets", h_recipients, split_depth=3),
-    Part("thread-schedules", h_threads, bound={"quick": 1, "thorough": 2}, split_depth=2, budget={"quick": 200, "thorough": 3000}, engine="E3"),
+    Part("thread-schedules", h_threads, bound={"quick": 1, "thorough": 2}, split_depth=2, budget={"quick": 2000, "thorough": 3000}, engine="E3"),
 ]
